@@ -126,6 +126,8 @@ int main(int argc, char *argv[])
 
         // If UDP is used the packets starts with an encapsulation number
         if (use_udp) {
+            if (res < AVTP_UDP_HEADER_LEN)
+                continue;
             udp_pdu = pdu;
             udp_seq_num = Avtp_Udp_GetEncapsulationSeqNo((Avtp_Udp_t *)udp_pdu);
             cf_pdu = pdu + AVTP_UDP_HEADER_LEN;
@@ -135,6 +137,8 @@ int main(int argc, char *argv[])
         }
 
         // Check if the packet is a control format packet (i.e. NTSCF or TSCF)
+        if (res < proc_bytes + AVTP_COMMON_HEADER_LEN)
+            continue;
         subtype = Avtp_CommonHeader_GetSubtype((Avtp_CommonHeader_t*)cf_pdu);
         if (subtype == AVTP_SUBTYPE_TSCF){
             proc_bytes += AVTP_TSCF_HEADER_LEN;
@@ -143,6 +147,10 @@ int main(int argc, char *argv[])
             proc_bytes += AVTP_NTSCF_HEADER_LEN;
             msg_length = Avtp_Ntscf_GetNtscfDataLength((Avtp_Ntscf_t*)cf_pdu);
         }
+
+        // The datagram must at least hold the GPC header
+        if (res < proc_bytes + AVTP_GPC_HEADER_LEN)
+            continue;
 
         // Check if the control packet payload is a ACF GPC.
         acf_pdu = &pdu[proc_bytes];
@@ -156,9 +164,14 @@ int main(int argc, char *argv[])
         // Parse the GPC Packet and print contents on the STDOUT
         gpc_code = Avtp_Gpc_GetGpcMsgId((Avtp_Gpc_t*)acf_pdu);
         acf_msg_length = Avtp_Gpc_GetAcfMsgLength((Avtp_Gpc_t*)acf_pdu);
-        if (acf_msg_length * 4 <= MAX_MSG_SIZE) {
+        if (acf_msg_length * 4 <= MAX_MSG_SIZE &&
+            acf_msg_length * 4 >= AVTP_GPC_HEADER_LEN &&
+            acf_msg_length * 4 <= res - proc_bytes) {
+            // The text is not necessarily terminated: print at most the
+            // bytes that belong to the received message
             recd_msg = (char *) acf_pdu + AVTP_GPC_HEADER_LEN;
-            printf("%s : GPC Code %ld\n", recd_msg, gpc_code);
+            printf("%.*s : GPC Code %ld\n",
+                   (int)(acf_msg_length * 4 - AVTP_GPC_HEADER_LEN), recd_msg, gpc_code);
         }
     }
 
